@@ -181,7 +181,7 @@ PLAN["C13"] = {"quick": [job("native", "seq", 16, 600), job("native", "reent", 1
 LEVEL["C15"] = "exploration"
 RULES["C15"] = ("cell: one writer publishing T_k = (secs k, nanos f(k)) with f injective into the real SyncCell<TearableAtomicTime> and 1-3 reader threads (read and try_read) with delays between the two halves "
                 "of the store; oracle: every value read is some T_k (untorn), each reader's sequence never decreases, a read after an Acquire load of a flag published after write k returns >= T_k; "
-                "public: Scheduler::time() polled from other threads while a simulation steps through distinctive (secs, nanos) times; non-trivial = case in which readers observed the value change")
+                "public: Scheduler::time() polled from other threads while a simulation moves through distinctive (secs, nanos) times with step and step_until (a third of the calls, 1-3 event times each), every value must be one of those times, never decrease, and never be older than the time the stepping thread published with Release after its latest call (reader acquires the flag first); non-trivial = case in which readers observed the value change")
 PLAN["C15"] = {"quick": [job("native", "cell", 16, 600), job("native", "public", 16, 600), miri("cell", 4, 32, 900)],
                "thorough": [job("native", "cell", 16, 3000), job("native", "public", 16, 3000), miri("cell", 8, 128, 3000), miri("public", 2, 4, 3000),
                             job("tsan", "cell", 8, 1800, args=["--scale", "0.1"])],
